@@ -157,6 +157,13 @@ def extremum_is_total(call, crate=None):
         if n.get("k") == "Path" and n.get("local") in firsts:
             return firsts[n["local"]]
         return None
+    # a comparator that decides ties through arithmetic (a tolerance band |a - b| <= eps, a rounded key) is not a total
+    # order even if it falls back on the key: "almost equal" is not transitive
+    for n in walk(clo["body"]):
+        if n.get("k") == "MethodCall" and n["name"] in ("abs", "round", "floor", "ceil", "trunc"):
+            return False
+        if n.get("k") == "Call" and strip(n["f"]).get("k") == "Path" and "local" in strip(n["f"]):
+            return False      # calls a local closure: its relation is not read
     has_then = False
     key_cmp = False
     for n in walk(clo["body"]):
